@@ -35,7 +35,7 @@ REQUIRED_OBS = ["heartbeats_compared", "timeout_resets_predicted_and_seen",
                 "never_answered_from_start", "all_answered_no_reset", "custom_configs",
                 "reset_after_previous_reset", "after_init_shutdown_cycle",
                 "ticks_while_link_down", "heartbeats_after_a_skipped_tick", "chatter_frames",
-                "initialised_after_init_gave_up", "two_clients_in_one_process",
+                "initialised_after_init_gave_up", "two_clients_in_one_process", "application_version_requests",
                 "tick_with_full_queue"]
 SOAK = True   # also judged by the whole-run monitors of the soak sessions (vf/soak.py)
 BUDGET = {"quick": 100, "thorough": 1500}
@@ -141,6 +141,12 @@ def cases(tier, seed):
             # extended ids) while it does not answer heartbeats: only a console-version
             # response counts
             yield {"gen": gen, "mode": "api", "pattern": pat, "chatter": True}
+            # the application's own update checks and commands in between
+            if pat == [0.0] * N:
+                yield {"gen": gen, "mode": "api", "pattern": pat,
+                       "user_checks": [100.25, 299.5, 300.5, 450.0, 1000.75, 1199.0]}
+                yield {"gen": gen, "mode": "api", "pattern": pat, "cycle": True,
+                       "user_checks": [10.5, 610.25, 2000.5]}
             # initialised only after init() had given up (slow console)
             yield {"gen": gen, "mode": "api", "pattern": pat, "late_init": 1.0}
             yield {"gen": gen, "mode": "api", "pattern": pat, "late_init": 0.875, "cycle": True}
@@ -360,6 +366,18 @@ def run_api(case):
                     con.send(c, raw)
                     obs["chatter_frames"] = obs.get("chatter_frames", 0) + 1
             chat = loop.create_task(chatter())
+        usr = None
+        if case.get("user_checks"):
+            # the application itself asks for the console version now and then (the public
+            # update check) and sends ordinary commands: the periodic heartbeat is unaffected
+            async def user():
+                t_prev = 0.0
+                for dt in case["user_checks"]:
+                    await asyncio.sleep(dt - t_prev)
+                    t_prev = dt
+                    await w.at.check_for_updates()
+                    await AW.commands(gen)["zone_on"][0](w)
+            usr = loop.create_task(user())
         drv = None
         if case.get("outages"):
             table = AW.commands(gen)
@@ -375,6 +393,8 @@ def run_api(case):
             await drv
         if chat is not None:
             chat.cancel()
+        if usr is not None:
+            usr.cancel()
         await w.at.shutdown()
 
     _, log, st = H.run(main)
@@ -386,6 +406,12 @@ def run_api(case):
     wins = outage_windows(log, out["m0"], out["m1"])
     want_reqs, want_resets, tie = predict(T0, 300.0, 330.0, pattern, out["end"], wins)
     reqs, closes, opens = observe(log, out["m0"], out["m1"])
+    if case.get("user_checks"):
+        # (all heartbeats are answered in these cases: the application's own version requests
+        # simply appear in addition to the periodic ones)
+        want_reqs = sorted(want_reqs + [T0 + dt for dt in case["user_checks"]
+                                        if T0 + dt < out["end"]])
+        obs["application_version_requests"] = len(case["user_checks"])
     if tie is not None:
         # judge only what happens strictly before the first undecided instant
         reqs, closes, opens = ([t for t in x if t < tie - 1e-6] for x in (reqs, closes, opens))
